@@ -252,8 +252,14 @@ func (p *proxy) ServeHTTP(w http.ResponseWriter, r *http.Request) {
 		}
 		w.Header().Add("transfer-encoding", "chunked")
 		w.WriteHeader(resp.StatusCode)
-		io.Copy(w, resp.Body)
+		_, err := io.Copy(w, resp.Body)
 		resp.Body.Close()
+		if err != nil {
+			// The client went away in the middle of the response. The agent may still be uploading
+			// the rest of it, which fills in resp.Trailer, so we must not touch the trailers here.
+			log.Printf("Failure relaying the response for %q to the client: %v", id, err)
+			return
+		}
 		for name, vals := range resp.Trailer {
 			if isHopByHopHeader(name) {
 				continue
